@@ -5,7 +5,7 @@ import numpy as np
 from typing_extensions import Unpack
 
 from classy_blocks.base.element import ElementBase
-from classy_blocks.base.exceptions import EdgeCreationError
+from classy_blocks.base.exceptions import CornerPairError, EdgeCreationError
 from classy_blocks.base.transforms import Mirror
 from classy_blocks.construct.edges import Arc, EdgeData, Line, Project, Spline
 from classy_blocks.construct.flat.face import Face
@@ -91,6 +91,9 @@ class Operation(ElementBase):
         surface or an intersection of multiple surface. WIP according to
         https://github.com/OpenFOAM/OpenFOAM-10/blob/master/src/meshTools/searchableSurfaces/searchableSurfacesQueries/searchableSurfacesQueries.H
         """
+        if not 0 <= corner <= 7:
+            raise ValueError(f"Corner index must be between 0 and 7, got {corner}")
+
         # bottom and top faces define operation's points
         if corner > 3:
             self.top_face.points[corner - 4].project(label)
@@ -101,6 +104,9 @@ class Operation(ElementBase):
         """Replace an edge between given corners with a Projected one
         or add geometry to an already projected edge"""
         # decide where the required edge sits
+        if not (0 <= corner_1 <= 7 and 0 <= corner_2 <= 7):
+            raise CornerPairError(f"Corner indexes must be between 0 and 7, got {corner_1}-{corner_2}")
+
         loc = edge_map[corner_1][corner_2]
         corner = loc.start_corner
 
